@@ -237,6 +237,8 @@ def shared_cases(tier):
         "plan_b": st.lists(step, min_size=5, max_size=5),
         "mode": st.sampled_from(SHARED_MODES),
         "queries": st.lists(q, min_size=3, max_size=8),
+        # two leaves commit the SAME script under different leaf versions (they are different leaves)
+        "twin": st.sampled_from([False, False, True]),
     })
 
 
@@ -270,6 +272,10 @@ def check_shared(case, ctx):
     P = ec.mul(case["secret"])
     internal = pt(P)
     specs = [(v, toks(s) + [bytes([0xF0, i])]) for i, (v, s) in enumerate(case["leaves"])]
+    if case.get("twin"):
+        twin_of = len(specs) - 1
+        specs[twin_of] = (0xC2 if specs[0][0] == 0xC0 else 0xC0, list(specs[0][1]))
+        ctx.label("same_script_under_two_leaf_versions")
     objs = [TapLeaf(Script(list(s)), v) for v, s in specs]
     base = [(objs[i], (v, txser.script_bytes(s)), [i]) for i, (v, s) in enumerate(specs)]
     mode = case["mode"]
@@ -429,6 +435,7 @@ SUBS = [
     Sub("shared_node_objects", check_shared, strategy=shared_cases, stateful=True,
         budget={"quick": 600, "thorough": 20000},
         required=["mode:" + m for m in set(SHARED_MODES)]
-        + ["query:A:control_block", "query:B:control_block", "query:A:path_hashes"],
+        + ["query:A:control_block", "query:B:control_block", "query:A:path_hashes",
+           "same_script_under_two_leaf_versions"],
         nontrivial_rule="every case: two trees over the same node objects, queried in generated order"),
 ]
